@@ -133,18 +133,22 @@ func ipv4Subnet(subnet uint32, bits int, probe uint32, via string) {
 		r.Inconclusive(fmt.Sprintf("netip and mask arithmetic disagree on %s in %s/%d", dotted(probe), dotted(subnet), bits))
 	}
 	cs := map[string]any{"probe": dotted(probe), "subnet": dotted(subnet), "bits": bits, "via": via}
-	var got bool
+	var got, skip bool
 	p, pv, st := mon.Guard(func() {
 		sn := lib4(subnet, bits)
 		if via == "text" {
 			sn = ip.NewIPv4FromString(fmt.Sprintf("%s/%d", dotted(subnet), bits))
 			if sn == nil {
-				return // reported by the text checks
+				skip = true // reported by the text checks
+				return
 			}
 		}
 		// the probe's own MaskBits must not matter: give it a different one
 		got = lib4(probe, (bits*7+5)%33).IsInSubnet(sn)
 	})
+	if skip {
+		return
+	}
 	r.Eval(1)
 	switch {
 	case p:
